@@ -102,9 +102,15 @@ def _(e, c, a, raw):
     r = version_cmp(e, V_(e, a[0]), V_(e, a[1])) == 0
     return r if c.endswith('eq') else (not r)
 def _single_digit(e, v):
+    """the digit d of a version that Debian ordering treats like the one-digit version d: optional zero epoch, leading zeros,
+    optional revision 0 (the separators and zeros must be concrete, the digit may be symbolic)"""
     ep, up, rev = v.payload.slots
-    if ep is not None or rev is not None or len(up.chars) != 1: return None
-    c = up.chars[0]
+    if ep is not None and not all(isinstance(c, int) and c == 48 for c in ep.chars): return None
+    if rev is not None and not (len(rev.chars) == 1 and isinstance(rev.chars[0], int) and rev.chars[0] == 48): return None
+    ch = list(up.chars)
+    while len(ch) > 1 and isinstance(ch[0], int) and ch[0] == 48: ch = ch[1:]
+    if len(ch) != 1: return None
+    c = ch[0]
     if isinstance(c, int): return c if 48 <= c <= 57 else None
     if e.check(z3.Not(z3.And(c >= 48, c <= 57))): return None
     return c
